@@ -9,7 +9,8 @@ Open Scope list_scope.
 
 Definition is_loc_step (s : kstep) : bool := match s with SBr _ _ | SDot _ | SIdx _ => true | _ => false end.
 
-(* the element an index selects: counted from the end when negative; none when out of range *)
+(* the element an index selects; none when out of range (the negative branch mirrors get_indexes_index; step_ok admits digits only, so under the
+   theorems' premises it is never taken) *)
 Definition idx_pick (xs : list value) (n : Z) : option value :=
   let len := Z.of_nat (List.length xs) in
   let i := if (n <? 0)%Z then Slice.wrap (n + len)%Z else n in
